@@ -1113,7 +1113,13 @@ pub struct BannerScan {
     pub dports: Vec<u16>,
     pub probe: Vec<u8>,
     answered: std::collections::BTreeSet<(u16, u16)>,
+    /// connections (one in 64) that send an HTTP request in two halves, the second one after half
+    /// of the scan's other connections have been made: (sport, dport, next seq, ack)
+    halves: std::collections::BTreeMap<u32, (u16, u16, u32, u32)>,
 }
+
+const SCAN_FIRST_HALF: &[u8] = b"GET /scan HT";
+const SCAN_SECOND_HALF: &[u8] = b"TP/1.0\r\n\r\n";
 
 impl BannerScan {
     pub fn new(plan: &Plan, rng: &mut Rng, peer: usize, n: u32) -> BannerScan {
@@ -1137,6 +1143,7 @@ impl BannerScan {
             dports: (0..rng.range(1, 4)).map(|_| rng.edge_port()).collect(),
             probe,
             answered: std::collections::BTreeSet::new(),
+            halves: std::collections::BTreeMap::new(),
         }
     }
     fn tuple(&self, i: u32) -> (u16, u16) {
@@ -1187,7 +1194,20 @@ impl Actor for BannerScan {
         if off >= self.n.min(20000) || !self.answered.insert((t.dport, t.sport)) {
             return Vec::new();
         }
+        if off % 64 == 7 {
+            // a slow client in the middle of the scan: its request straddles half of the scan
+            let ack = t.seq.wrapping_add(1);
+            self.halves.insert(off, (t.dport, t.sport, t.ack.wrapping_add(SCAN_FIRST_HALF.len() as u32), ack));
+            let wait = (self.n as u64 / 2 + 40) * self.gap_us.max(1) + 500;
+            return vec![Action::Send(self.seg(t.dport, t.sport, t.ack, ack, F_PSH | F_ACK, SCAN_FIRST_HALF)), Action::Timer(wait, off)];
+        }
         vec![Action::Send(self.seg(t.dport, t.sport, t.ack, t.seq.wrapping_add(1), F_PSH | F_ACK, &self.probe))]
+    }
+    fn on_timer(&mut self, token: u32, _rng: &mut Rng) -> Vec<Action> {
+        match self.halves.remove(&token) {
+            Some((sp, dp, seq, ack)) => vec![Action::Send(self.seg(sp, dp, seq, ack, F_PSH | F_ACK, SCAN_SECOND_HALF))],
+            None => Vec::new(),
+        }
     }
     fn describe(&self) -> String {
         format!(
